@@ -484,6 +484,25 @@ def unzip_pairs(tree):
             ast.fix_missing_locations(fn)
 
 
+def _only_continue_guards(stmts):
+    return all(isinstance(g, ast.If) and not g.orelse and len(g.body) == 1 and
+               isinstance(g.body[0], ast.Continue) for g in stmts)
+
+
+def _negated(e):
+    """the negation of a condition, simplified: not not x -> x, a in b <-> a not in b, is / is not,
+    == / !=, ordering comparisons flipped"""
+    if isinstance(e, ast.UnaryOp) and isinstance(e.op, ast.Not):
+        return e.operand
+    if isinstance(e, ast.Compare) and len(e.ops) == 1:
+        flip = {ast.In: ast.NotIn, ast.NotIn: ast.In, ast.Is: ast.IsNot, ast.IsNot: ast.Is,
+                ast.Eq: ast.NotEq, ast.NotEq: ast.Eq, ast.Lt: ast.GtE, ast.GtE: ast.Lt,
+                ast.Gt: ast.LtE, ast.LtE: ast.Gt}
+        return ast.copy_location(ast.Compare(left=e.left, ops=[flip[type(e.ops[0])]()],
+                                             comparators=e.comparators), e)
+    return ast.copy_location(ast.UnaryOp(op=ast.Not(), operand=e), e)
+
+
 def loops_to_comprehensions(tree):
     """``L = []`` directly followed by ``for x in I: [if c:] L.append(e)`` (nothing else in the loop)
     is the list comprehension ``L = [e for x in I if c]``"""
@@ -494,10 +513,11 @@ def loops_to_comprehensions(tree):
                 a, lp = blk[i], blk[i + 1]
                 if isinstance(a, ast.Assign) and len(a.targets) == 1 and isinstance(a.targets[0], ast.Name) \
                         and isinstance(a.value, ast.List) and not a.value.elts and \
-                        isinstance(lp, ast.For) and not lp.orelse and len(lp.body) == 1:
+                        isinstance(lp, ast.For) and not lp.orelse and _only_continue_guards(lp.body[:-1]):
                     L = a.targets[0].id
-                    inner = lp.body[0]
-                    conds = []
+                    inner = lp.body[-1]
+                    # ``if c: continue`` in front of the append is the filter ``not c``
+                    conds = [_negated(g.test) for g in lp.body[:-1]]
                     while isinstance(inner, ast.If) and not inner.orelse and len(inner.body) == 1:
                         conds.append(inner.test)
                         inner = inner.body[0]
@@ -1291,6 +1311,16 @@ def forward_adjacent_temp(tree):
                 a, b = blk[i], blk[i + 1]
                 if isinstance(a, ast.Assign) and len(a.targets) == 1 and isinstance(a.targets[0], ast.Name) \
                         and isinstance(b, ast.Assign) and isinstance(b.value, ast.Name) and \
+                        b.value.id == a.targets[0].id and a.targets[0].id not in params:
+                    x = a.targets[0].id
+                    uses = [n for n in ast.walk(fn) if isinstance(n, ast.Name) and n.id == x]
+                    if len(uses) == 2:
+                        b.value = a.value
+                        del blk[i]
+                        continue
+                # ``x = E`` directly followed by ``return x`` (no other use of x): ``return E``
+                if isinstance(a, ast.Assign) and len(a.targets) == 1 and isinstance(a.targets[0], ast.Name) \
+                        and isinstance(b, ast.Return) and isinstance(b.value, ast.Name) and \
                         b.value.id == a.targets[0].id and a.targets[0].id not in params:
                     x = a.targets[0].id
                     uses = [n for n in ast.walk(fn) if isinstance(n, ast.Name) and n.id == x]
